@@ -1,4 +1,4 @@
-import ScenicModel.Props.C14
+import ScenicModel.Props.C14Base
 /-! C14 side condition (finding `global-leak:inInitialScenario` while it fails):
     every veneer global assigned by an opener or a plain function is reset by the closer. -/
 namespace Scenic.C14
